@@ -70,7 +70,7 @@ func TestVerif_C11_split(t *testing.T) {
 	s := verifh.New(t, "C11", "split",
 		"net.SplitHostPort vs model on grammar-generated authorities (names/IPv4/IPv6, zone, port, empty port) and on mutated/random delimiter strings; non-trivial = every case (distinct by line)")
 	r := s.Rand()
-	n := verifh.N(3000, 150000)
+	n := verifh.N(6000, 150000)
 	for i := 0; i < n; i++ {
 		var hp string
 		if r.Intn(2) == 0 {
@@ -96,7 +96,7 @@ func TestVerif_C11_legacy(t *testing.T) {
 		"verbatim pre-fix getHostname/getDomain (over the real net.SplitHostPort) vs Legacy model; same input streams as lane host")
 	r := s.Rand()
 	fixed := []string{"[::1]", "[::2]", "10.2.3.4", "99.2.3.4", "example.com.", "evil.com.", "[::1]:80", "::1", ":80", "a:b:c"}
-	n := verifh.N(3000, 150000)
+	n := verifh.N(6000, 150000)
 	for i := 0; i < n+len(fixed); i++ {
 		var a string
 		switch {
@@ -224,7 +224,7 @@ func TestVerif_C11_host(t *testing.T) {
 		"example.com.", "evil.com.", "www.example.com.", "www.example.com.:443", "example.com:", "EXAMPLE.com", "a.b.c", "localhost", "[::ffff:1.2.3.4]"} {
 		c11HostCase(s, a, true)
 	}
-	n := verifh.N(6000, 300000)
+	n := verifh.N(20000, 400000)
 	for i := 0; i < n; i++ {
 		if r.Intn(3) != 0 {
 			a := c11GenAuth(r, true)
@@ -245,7 +245,7 @@ func TestVerif_C11_spec(t *testing.T) {
 	s := verifh.New(t, "C11", "spec",
 		"well-formed structured authorities (WfAuthority) from the grammar generator, incl. non-RFC label bytes and empty inner labels; expected = own rendering, net/url oracle host+domain, generator's RFC flag, real getHostname/getDomain of the rendering")
 	r := s.Rand()
-	n := verifh.N(5000, 250000)
+	n := verifh.N(15000, 300000)
 	for i := 0; i < n; i++ {
 		a := c11GenAuth(r, true)
 		if r.Intn(2) == 0 {
@@ -292,7 +292,7 @@ func TestVerif_C11_policy(t *testing.T) {
 	r := s.Rand()
 	hdrPool := []string{"Authorization", "Cookie", "X-Custom", "X-Multi", "X-Other", "Www-Authenticate"}
 	c := C()
-	n := verifh.N(6000, 300000)
+	n := verifh.N(15000, 300000)
 	for i := 0; i < n; i++ {
 		a := c11GenAuth(r, false)
 		for !a.wf {
